@@ -55,7 +55,7 @@ class C12(Prop):
             "one case = one scaffold with a batch of queries. exhaustive: every row-kind word over {F,G} of "
             "length<=3 (quick; +length 4 over lengths {1,2}) / <=5 (thorough) x row lengths in {1,2,3} x every "
             "query 1<=a<=b<=total+2; random: 1-40 rows, lengths up to 10^6, queries around every row boundary "
-            "and beyond the end; a third of them also as a scaffold with a history (indexed and queried with its first rows only, grown by add_row / append_scaffold, indexed again). evaluations counts scaffolds; coverage.queries counts (scaffold,query) pairs. "
+            "and beyond the end; a third of them also as a scaffold with a history (indexed and queried with its first rows only, grown by add_row / append_scaffold, indexed again), a quarter with the caller's row list emptied and an earlier whole-scaffold result edited before the queries. evaluations counts scaffolds; coverage.queries counts (scaffold,query) pairs. "
             "non-trivial = distinct scaffold whose batch contains both a hit and a miss or a gap-only query"
         )
 
@@ -94,6 +94,10 @@ class C12(Prop):
                     a, b = b, a
                 qs.append([a, b])
             yield {"gen": f"random/n={n}", "rows": rows, "queries": qs}
+            if i % 4 == 1:
+                # the index must not depend on objects other code still holds: the caller empties the list it
+                # built the scaffold from, and an earlier whole-scaffold result is edited, before the queries
+                yield {"gen": "aliasing", "rows": rows, "queries": qs, "reuse_list": True, "pre_mutate": True}
             if n >= 2 and i % 3 == 0:
                 # a scaffold with a history: indexed and queried when it had only its first k rows, then
                 # grown (add_row / append_scaffold) and indexed again -- the second index must describe
@@ -120,7 +124,21 @@ class C12(Prop):
                 sc.append_scaffold(Scaffold("more", objs[k0:]))
             ia = IndexedAssembly("asm", scaffolds=[sc])
         else:
-            ia = IndexedAssembly("asm", scaffolds=[Scaffold("scf", objs)])
+            mine = list(objs)
+            ia = IndexedAssembly("asm", scaffolds=[Scaffold("scf", mine)])
+            if case.get("reuse_list"):
+                mine.clear()            # the caller re-uses its own list
+            if case.get("pre_mutate"):
+                total = sum(o.length for o in objs)
+                for a, b in ((1, total), (1, total + 7)):
+                    try:
+                        r0 = ia.find_overlaps(Fragment("scf", a, b, 1))
+                        if r0 is not None and r0.rows:
+                            r0.discard_end()
+                            if r0.rows:
+                                r0.discard_start()
+                    except Exception:
+                        pass
         out = []
         for a, b in case["queries"]:
             try:
